@@ -105,4 +105,52 @@ def sectionsOk : List Stmt → Bool
 def holdsRegister (langsys : List LS) (obs : List Stmt) : Bool :=
   obs.isEmpty || (startsWithScript obs && okStmts langsys "DFLT" obs && sectionsOk obs)
 
+/-! ### designspace builds: kerning on rule alternates stays reachable from the script of the replaced glyph -/
+
+/-- what the property needs of `extraSubstitutions`: every (glyph, replacement) of every rule is in the mapping, and
+the mapping holds nothing else -/
+def holdsExtra (rules : List Rule) (obs : SubMap) : Bool :=
+  rules.all (fun rule => rule.all (fun s => (extraGet obs s.1).contains s.2)) &&
+  obs.all (fun e => e.2.all (fun r => rules.any (fun rule => rule.contains (e.1, r))))
+
+/-- what the property needs of the classification step: nothing is lost, and every alternate of a member is a member -/
+def holdsClassify (m : SubMap) (sets obs : List (Tag × List String)) : Bool :=
+  sets.all (fun sg => obs.any (fun og => og.1 == sg.1 && sg.2.all og.2.contains &&
+    sg.2.all (fun g => (extraGet m g).all og.2.contains)))
+
+/-- input of the designspace stream: the rules, each glyph's own OpenType script tags (from its code points;
+`["*"]` = common/inherited, `[]` = not encoded), the kerning pairs (groups expanded) -/
+structure DsIn where
+  rules : List Rule
+  own : List (String × List Tag)
+  pairs : List (String × String)
+  deriving Repr
+
+/-- script tags of a glyph: its own code points', plus those of every glyph a designspace rule replaces by it
+(the alternate is only ever shown in place of that glyph, so it belongs to that glyph's script) -/
+def dsScripts (i : DsIn) (g : String) : List Tag :=
+  (alookup g i.own).getD [] ++
+  i.rules.flatMap (fun rule => rule.flatMap (fun s => if s.2 == g then (alookup s.1 i.own).getD [] else []))
+
+/-- glyph `g` belongs to script `s` and to no common/inherited character -/
+def dsSpecific (i : DsIn) (g : String) (s : Tag) : Bool :=
+  (dsScripts i g).contains s && !(dsScripts i g).contains "*"
+
+/-- generated kerning acts on glyphs of script `s`: some pair has both glyphs in `s` -/
+def kernActsOn (i : DsIn) (s : Tag) : Bool := i.pairs.any (fun p => dsSpecific i p.1 s && dsSpecific i p.2 s)
+
+def isGenPos (f : Tag) : Bool := ["mark", "mkmk", "abvm", "blwm", "curs"].contains f
+
+/-- **C20, converse direction** (first sentence of the property): a language system present in the compiled GPOS
+through a generated mark/mkmk/abvm/blwm/curs feature exposes generated kerning (kern or dist) too whenever
+kerning acts on glyphs of its script. -/
+def holdsDs (i : DsIn) (obs : List Key) : Bool :=
+  obs.all (fun k => !isGenPos k.2.2 || !kernActsOn i k.1 ||
+    obs.any (fun k' => k'.1 == k.1 && k'.2.1 == k.2.1 && (k'.2.2 == "kern" || k'.2.2 == "dist")))
+
+/-- the offending language systems -/
+def dsFailures (i : DsIn) (obs : List Key) : List Key :=
+  obs.filter (fun k => isGenPos k.2.2 && kernActsOn i k.1 &&
+    !obs.any (fun k' => k'.1 == k.1 && k'.2.1 == k.2.1 && (k'.2.2 == "kern" || k'.2.2 == "dist")))
+
 end Ufo2ft.C20
